@@ -33,29 +33,20 @@ Qed.
 Section Sound.
   Variable comp : var -> nat.
   Variable prog : list atom.
-  Hypothesis Hok : imm_ok comp prog = true.
+  Hypothesis Hcp : copies_ok comp prog = true.
+  Hypothesis Hmc : muts_clean comp prog = true.
 
-  Lemma ok_parts : copies_ok comp prog = true /\ muts_clean comp prog = true /\ yields_ok comp prog = true.
-  Proof.
-    pose proof Hok as H. unfold imm_ok in H. apply andb_true_iff in H. destruct H as [H H3].
-    apply andb_true_iff in H. destruct H as [H1 H2]. auto.
-  Qed.
-
+  (* part 1: objects of the caller (needs: copies inside classes, mutated classes clean) *)
   Record Inv (s : state) : Prop := {
     i_wf : forall x l, store s x = Some l -> l < length (heap s);
     i_tag : forall x l o, store s x = Some l -> nth_error (heap s) l = Some o -> o_owner o = Own -> o_tag o = comp x;
     i_clean : forall x l o, store s x = Some l -> nth_error (heap s) l = Some o -> clean comp prog (comp x) = true ->
                             o_owner o = Own;
-    i_yield : forall l o, nth_error (heap s) l = Some o -> o_yielded o = true -> o_owner o = Own ->
-                          exists z, In (AYield z) prog /\ comp z = o_tag o;
-    i_flags : foreign_mutated s = false /\ yielded_mutated s = false
+    i_flag : foreign_mutated s = false
   }.
 
   Lemma inv_init : Inv init_state.
-  Proof.
-    constructor; cbn; try discriminate; auto.
-    - intros l o H. destruct l; discriminate.
-  Qed.
+  Proof. constructor; cbn; try discriminate; auto. Qed.
 
   Lemma clean_no_foreign x : clean comp prog (comp x) = true -> forall a, In a prog -> defines_foreign a <> Some x.
   Proof.
@@ -63,12 +54,17 @@ Section Sound.
     rewrite Nat.eqb_refl in Hc. discriminate.
   Qed.
 
+  Lemma not_clean_of_def a x : In a prog -> defines_foreign a = Some x -> clean comp prog (comp x) = false.
+  Proof.
+    intros Hin Hd. destruct (clean comp prog (comp x)) eqn:E; [|reflexivity].
+    exfalso. exact (clean_no_foreign x E a Hin Hd).
+  Qed.
+
   Lemma bind_foreign_inv w x c s : w <> Own -> (clean comp prog (comp x) = false) -> Inv s -> Inv (bind_foreign w x c s).
   Proof.
-    intros Hw Hnc [WF TG CL YL FL]. unfold bind_foreign.
+    intros Hw Hnc [WF TG CL FL]. unfold bind_foreign.
     destruct (nth_error (heap s) c) as [o|] eqn:Ec; [destruct (owner_eqb (o_owner o) w) eqn:Eo|].
-    - (* an existing foreign object *)
-      assert (Hown : o_owner o <> Own) by (destruct (o_owner o), w; cbn in Eo; congruence).
+    - assert (Hown : o_owner o <> Own) by (destruct (o_owner o), w; cbn in Eo; congruence).
       constructor; cbn [store heap foreign_mutated yielded_mutated]; auto.
       + intros y l H. unfold upd in H. destruct (Nat.eqb y x); [inversion H; subst; apply nth_error_Some; congruence|eauto].
       + intros y l o' H Hn Ho. unfold upd in H. destruct (Nat.eqb_spec y x) as [->|Hne].
@@ -77,18 +73,6 @@ Section Sound.
       + intros y l o' H Hn Hc. unfold upd in H. destruct (Nat.eqb_spec y x) as [->|Hne].
         * rewrite Hc in Hnc. discriminate.
         * eauto.
-    - (* a new one *)
-      constructor; cbn [store heap foreign_mutated yielded_mutated]; auto.
-      + intros y l H. rewrite app_length. cbn. unfold upd in H. destruct (Nat.eqb y x); [inversion H; lia|].
-        specialize (WF y l H). lia.
-      + intros y l o' H Hn Ho. unfold upd in H. rewrite nth_error_snoc in Hn. destruct (Nat.eqb_spec y x) as [->|Hne].
-        * inversion H; subst. rewrite Nat.ltb_irrefl, Nat.eqb_refl in Hn. inversion Hn; subst. cbn in Ho. contradiction.
-        * pose proof (WF y l H) as Hl. apply Nat.ltb_lt in Hl. rewrite Hl in Hn. eauto.
-      + intros y l o' H Hn Hc. unfold upd in H. rewrite nth_error_snoc in Hn. destruct (Nat.eqb_spec y x) as [->|Hne].
-        * rewrite Hc in Hnc. discriminate.
-        * pose proof (WF y l H) as Hl. apply Nat.ltb_lt in Hl. rewrite Hl in Hn. eauto.
-      + intros l o' Hn Hy Ho. rewrite nth_error_snoc in Hn. destruct (Nat.ltb l (length (heap s))); [eauto|].
-        destruct (Nat.eqb l (length (heap s))); [|discriminate]. inversion Hn; subst. discriminate.
     - constructor; cbn [store heap foreign_mutated yielded_mutated]; auto.
       + intros y l H. rewrite app_length. cbn. unfold upd in H. destruct (Nat.eqb y x); [inversion H; lia|].
         specialize (WF y l H). lia.
@@ -98,22 +82,22 @@ Section Sound.
       + intros y l o' H Hn Hc. unfold upd in H. rewrite nth_error_snoc in Hn. destruct (Nat.eqb_spec y x) as [->|Hne].
         * rewrite Hc in Hnc. discriminate.
         * pose proof (WF y l H) as Hl. apply Nat.ltb_lt in Hl. rewrite Hl in Hn. eauto.
-      + intros l o' Hn Hy Ho. rewrite nth_error_snoc in Hn. destruct (Nat.ltb l (length (heap s))); [eauto|].
-        destruct (Nat.eqb l (length (heap s))); [|discriminate]. inversion Hn; subst. discriminate.
-  Qed.
-
-  Lemma not_clean_of_def a x : In a prog -> defines_foreign a = Some x -> clean comp prog (comp x) = false.
-  Proof.
-    intros Hin Hd. destruct (clean comp prog (comp x)) eqn:E; [|reflexivity].
-    exfalso. exact (clean_no_foreign x E a Hin Hd).
+    - constructor; cbn [store heap foreign_mutated yielded_mutated]; auto.
+      + intros y l H. rewrite app_length. cbn. unfold upd in H. destruct (Nat.eqb y x); [inversion H; lia|].
+        specialize (WF y l H). lia.
+      + intros y l o' H Hn Ho. unfold upd in H. rewrite nth_error_snoc in Hn. destruct (Nat.eqb_spec y x) as [->|Hne].
+        * inversion H; subst. rewrite Nat.ltb_irrefl, Nat.eqb_refl in Hn. inversion Hn; subst. cbn in Ho. contradiction.
+        * pose proof (WF y l H) as Hl. apply Nat.ltb_lt in Hl. rewrite Hl in Hn. eauto.
+      + intros y l o' H Hn Hc. unfold upd in H. rewrite nth_error_snoc in Hn. destruct (Nat.eqb_spec y x) as [->|Hne].
+        * rewrite Hc in Hnc. discriminate.
+        * pose proof (WF y l H) as Hl. apply Nat.ltb_lt in Hl. rewrite Hl in Hn. eauto.
   Qed.
 
   Lemma step_inv s a c : In a prog -> Inv s -> Inv (astep comp s a c).
   Proof.
-    intros Hin HI. destruct ok_parts as (Hcp & Hmc & Hyo). pose proof HI as [WF TG CL YL FL].
+    intros Hin HI. pose proof HI as [WF TG CL FL].
     destruct a as [x|x|x|x y|x|x]; cbn [astep].
-    - (* AFresh *)
-      constructor; cbn [store heap foreign_mutated yielded_mutated]; auto.
+    - constructor; cbn [store heap foreign_mutated yielded_mutated]; auto.
       + intros z l H. rewrite app_length. cbn. unfold upd in H. destruct (Nat.eqb z x); [inversion H; lia|].
         specialize (WF z l H). lia.
       + intros z l o H Hn Ho. unfold upd in H. rewrite nth_error_snoc in Hn. destruct (Nat.eqb_spec z x) as [->|Hne].
@@ -122,59 +106,105 @@ Section Sound.
       + intros z l o H Hn Hc. unfold upd in H. rewrite nth_error_snoc in Hn. destruct (Nat.eqb_spec z x) as [->|Hne].
         * inversion H; subst. rewrite Nat.ltb_irrefl, Nat.eqb_refl in Hn. inversion Hn; subst. reflexivity.
         * pose proof (WF z l H) as Hl. apply Nat.ltb_lt in Hl. rewrite Hl in Hn. eauto.
-      + intros l o Hn Hy Ho. rewrite nth_error_snoc in Hn. destruct (Nat.ltb l (length (heap s))); [eauto|].
-        destruct (Nat.eqb l (length (heap s))); [|discriminate]. inversion Hn; subst. discriminate.
     - apply bind_foreign_inv; auto; [discriminate|]. apply (not_clean_of_def (ASrc x)); auto.
     - apply bind_foreign_inv; auto; [discriminate|]. apply (not_clean_of_def (AExt x)); auto.
-    - (* ACopy *)
-      assert (Hc : comp x = comp y).
-      { unfold copies_ok in Hcp. rewrite forallb_forall in Hcp. specialize (Hcp _ Hin). apply Nat.eqb_eq in Hcp. exact Hcp. }
+    - assert (Hc : comp x = comp y).
+      { pose proof Hcp as H. unfold copies_ok in H. rewrite forallb_forall in H. specialize (H _ Hin). apply Nat.eqb_eq in H. exact H. }
       constructor; cbn [store heap foreign_mutated yielded_mutated]; auto.
       + intros z l H. unfold upd in H. destruct (Nat.eqb z x); eauto.
       + intros z l o H Hn Ho. unfold upd in H. destruct (Nat.eqb_spec z x) as [->|Hne]; [rewrite Hc|]; eauto.
       + intros z l o H Hn Hcl. unfold upd in H. destruct (Nat.eqb_spec z x) as [->|Hne]; [rewrite Hc in Hcl|]; eauto.
-    - (* AMut *)
-      destruct (store s x) as [l|] eqn:Ex; [|exact HI]. destruct (nth_error (heap s) l) as [o|] eqn:El; [|exact HI].
+    - destruct (store s x) as [l|] eqn:Ex; [|exact HI]. destruct (nth_error (heap s) l) as [o|] eqn:El; [|exact HI].
       assert (Hcl : clean comp prog (comp x) = true).
-      { unfold muts_clean in Hmc. rewrite forallb_forall in Hmc. exact (Hmc _ Hin). }
+      { pose proof Hmc as H. unfold muts_clean in H. rewrite forallb_forall in H. exact (H _ Hin). }
       pose proof (CL x l o Ex El Hcl) as Hown.
       constructor; cbn [store heap foreign_mutated yielded_mutated]; auto.
-      destruct FL as [F1 F2]. rewrite F1, F2, Hown. cbn. split; [reflexivity|].
-      destruct (o_yielded o) eqn:Ey; [|reflexivity]. exfalso.
-      destruct (YL l o El Ey Hown) as (z & Hz & Hcz). rewrite (TG x l o Ex El Hown) in Hcz.
-      unfold yields_ok in Hyo. rewrite forallb_forall in Hyo. specialize (Hyo _ Hz). cbn in Hyo.
-      apply negb_true_iff in Hyo. unfold mutated_class in Hyo.
-      assert (E : existsb (fun a => match a with AMut x0 => Nat.eqb (comp x0) (comp z) | _ => false end) prog = true).
-      { apply existsb_exists. exists (AMut x). split; auto. apply Nat.eqb_eq. symmetry. exact Hcz. }
-      rewrite E in Hyo. discriminate.
-    - (* AYield *)
-      destruct (store s x) as [l|] eqn:Ex; [|exact HI].
+      rewrite FL, Hown. reflexivity.
+    - destruct (store s x) as [l|] eqn:Ex; [|exact HI].
       constructor; cbn [store heap foreign_mutated yielded_mutated]; auto.
       + intros z l' H. rewrite set_yielded_length. eauto.
       + intros z l' o H Hn Ho. rewrite nth_error_set_yielded in Hn. destruct (nth_error (heap s) l') as [o'|] eqn:E'; [|discriminate].
         inversion Hn; subst. destruct (Nat.eqb l' l); cbn in *; eauto.
       + intros z l' o H Hn Hc. rewrite nth_error_set_yielded in Hn. destruct (nth_error (heap s) l') as [o'|] eqn:E'; [|discriminate].
         inversion Hn; subst. destruct (Nat.eqb l' l); cbn in *; eauto.
-      + intros l' o Hn Hy Ho. rewrite nth_error_set_yielded in Hn. destruct (nth_error (heap s) l') as [o'|] eqn:E'; [|discriminate].
-        inversion Hn; subst. destruct (Nat.eqb_spec l' l) as [->|Hne]; cbn in *.
-        * exists x. split; auto. symmetry. eapply TG; eauto.
-        * eauto.
   Qed.
 
-  (* every path, every number of iterations, every choice of foreign objects *)
-  Theorem immutability_sound : forall w s, Forall (fun ac => In (fst ac) prog) w -> Inv s ->
-    foreign_mutated (arun comp w s) = false /\ yielded_mutated (arun comp w s) = false.
+  Lemma run_inv : forall w s, Forall (fun ac => In (fst ac) prog) w -> Inv s -> Inv (arun comp w s).
   Proof.
-    induction w as [|[a c] t IH]; intros s Hw HI; cbn [arun].
-    - exact (i_flags s HI).
-    - inversion Hw; subst. apply IH; auto. apply step_inv; auto.
+    induction w as [|[a c] t IH]; intros s Hw HI; cbn [arun]; [exact HI|].
+    inversion Hw; subst. apply IH; auto. apply step_inv; auto.
+  Qed.
+
+  (* no path mutates an object of the caller or of unknown origin *)
+  Theorem foreign_sound : forall w, Forall (fun ac => In (fst ac) prog) w -> foreign_mutated (arun comp w init_state) = false.
+  Proof. intros w Hw. exact (i_flag _ (run_inv w init_state Hw inv_init)). Qed.
+
+  (* part 2: delivered objects (needs in addition: no class both yielded and mutated) *)
+  Hypothesis Hyo : yields_ok comp prog = true.
+
+  Record YInv (s : state) : Prop := {
+    y_yield : forall l o, nth_error (heap s) l = Some o -> o_yielded o = true -> o_owner o = Own ->
+                          exists z, In (AYield z) prog /\ comp z = o_tag o;
+    y_flag : yielded_mutated s = false
+  }.
+
+  Lemma ystep s a c : In a prog -> Inv s -> YInv s -> YInv (astep comp s a c).
+  Proof.
+    intros Hin [WF TG CL FL] [YL YF].
+    destruct a as [x|x|x|x y|x|x]; cbn [astep].
+    - constructor; cbn [heap yielded_mutated]; auto.
+      intros l o Hn Hy Ho. rewrite nth_error_snoc in Hn. destruct (Nat.ltb l (length (heap s))); [eauto|].
+      destruct (Nat.eqb l (length (heap s))); [|discriminate]. inversion Hn; subst. discriminate.
+    - unfold bind_foreign. destruct (nth_error (heap s) c) as [o|]; [destruct (owner_eqb (o_owner o) Src)|];
+        constructor; cbn [heap yielded_mutated]; auto; intros l o' Hn Hy Ho; rewrite nth_error_snoc in Hn;
+        (destruct (Nat.ltb l (length (heap s))); [eauto|]);
+        (destruct (Nat.eqb l (length (heap s))); [|discriminate]); inversion Hn; subst; discriminate.
+    - unfold bind_foreign. destruct (nth_error (heap s) c) as [o|]; [destruct (owner_eqb (o_owner o) Ext)|];
+        constructor; cbn [heap yielded_mutated]; auto; intros l o' Hn Hy Ho; rewrite nth_error_snoc in Hn;
+        (destruct (Nat.ltb l (length (heap s))); [eauto|]);
+        (destruct (Nat.eqb l (length (heap s))); [|discriminate]); inversion Hn; subst; discriminate.
+    - constructor; cbn [heap yielded_mutated]; auto.
+    - destruct (store s x) as [l|] eqn:Ex; [|constructor; auto].
+      destruct (nth_error (heap s) l) as [o|] eqn:El; [|constructor; auto].
+      assert (Hcl : clean comp prog (comp x) = true).
+      { pose proof Hmc as H. unfold muts_clean in H. rewrite forallb_forall in H. exact (H _ Hin). }
+      pose proof (CL x l o Ex El Hcl) as Hown.
+      constructor; cbn [heap yielded_mutated]; auto.
+      rewrite YF. cbn. destruct (o_yielded o) eqn:Ey; [|reflexivity]. exfalso.
+      destruct (YL l o El Ey Hown) as (z & Hz & Hcz). rewrite (TG x l o Ex El Hown) in Hcz.
+      pose proof Hyo as H. unfold yields_ok in H. rewrite forallb_forall in H. specialize (H _ Hz). cbn in H.
+      apply negb_true_iff in H. unfold mutated_class in H.
+      assert (E : existsb (fun a => match a with AMut x0 => Nat.eqb (comp x0) (comp z) | _ => false end) prog = true).
+      { apply existsb_exists. exists (AMut x). split; auto. apply Nat.eqb_eq. symmetry. exact Hcz. }
+      rewrite E in H. discriminate.
+    - destruct (store s x) as [l|] eqn:Ex; [|constructor; auto].
+      constructor; cbn [heap yielded_mutated]; auto.
+      intros l' o Hn Hy Ho. rewrite nth_error_set_yielded in Hn. destruct (nth_error (heap s) l') as [o'|] eqn:E'; [|discriminate].
+      inversion Hn; subst. destruct (Nat.eqb_spec l' l) as [->|Hne]; cbn in *.
+      + exists x. split; auto. symmetry. eapply TG; eauto.
+      + eauto.
+  Qed.
+
+  Theorem delivered_sound : forall w, Forall (fun ac => In (fst ac) prog) w -> yielded_mutated (arun comp w init_state) = false.
+  Proof.
+    intros w Hw.
+    assert (G : forall w s, Forall (fun ac => In (fst ac) prog) w -> Inv s -> YInv s -> YInv (arun comp w s)).
+    { induction w0 as [|[a c] t IH]; intros s Hw0 HI HY; cbn [arun]; [exact HY|].
+      inversion Hw0; subst. apply IH; auto; [apply step_inv | apply ystep]; auto. }
+    assert (Y0 : YInv init_state).
+    { constructor; cbn; auto. intros l o H. destruct l; discriminate. }
+    exact (y_flag _ (G w init_state Hw inv_init Y0)).
   Qed.
 End Sound.
 
 Theorem imm_ok_sound comp prog : imm_ok comp prog = true ->
   forall w, Forall (fun ac => In (fst ac) prog) w ->
   foreign_mutated (arun comp w init_state) = false /\ yielded_mutated (arun comp w init_state) = false.
-Proof. intros H w Hw. apply (immutability_sound comp prog H w init_state Hw). apply inv_init. Qed.
+Proof.
+  intros H w Hw. unfold imm_ok in H. apply andb_true_iff in H. destruct H as [H H3].
+  apply andb_true_iff in H. destruct H as [H1 H2].
+  split; [apply (foreign_sound comp prog H1 H2 w Hw) | apply (delivered_sound comp prog H1 H2 H3 w Hw)].
+Qed.
 
 (* the check does tell: mutating a pulled row, and re-using a delivered buffer, are both reachable violations *)
 Example mutating_a_source_row : foreign_mutated (arun (fun _ => 0) [(ASrc 0, 0); (AMut 0, 0)] init_state) = true.
